@@ -143,3 +143,13 @@ Theorem C16_monitor_raise_sound : forall w acts,
   WorldMon.all_steps (WorldMon.raise_step (w_cfg w)) (WorldC.project w) (MonSound.msteps w acts) = true.
 Proof. exact WorldSugRestart.raise_steps_model. Qed.
 Print Assumptions C16_monitor_raise_sound.
+
+(* The progress clause of the monitor after a raise (restart_progress: at rest, a history with a raise of maxTrialCount carries a
+   verdict again when its environment is done) on the model's own projections: every quiescent end of a history without teardown
+   and with fresh algorithm replies passes it. *)
+From KV Require Proofs.WorldRest Proofs.WorldNames.
+Theorem C16_monitor_restart_progress_sound : forall c acts,
+  valid_cfg c -> no_teardown acts -> WorldNames.fresh_run c acts -> quiescent (run c acts) ->
+  forall k, WorldMon.last_state k = WorldC.project (run c acts) -> WorldMon.restart_progress k = true.
+Proof. exact WorldRest.restart_progress_model. Qed.
+Print Assumptions C16_monitor_restart_progress_sound.
